@@ -433,14 +433,24 @@ impl DefaultAuthorStorage {
             #[cfg(feature = "fs-store")]
             Self::Persistent(ref path) => {
                 use anyhow::Context;
-                tokio::fs::write(path, author_id.to_string())
+                // Write to a temporary file and move it into place: a process that dies in the
+                // middle of a plain write would leave an empty or partial file behind, and
+                // `load` refuses to start the engine on a file it cannot parse.
+                let tmp = path.with_extension("tmp");
+                tokio::fs::write(&tmp, author_id.to_string())
                     .await
                     .with_context(|| {
                         format!(
                             "Failed to write the default author to `{}`",
-                            path.to_string_lossy()
+                            tmp.to_string_lossy()
                         )
                     })?;
+                tokio::fs::rename(&tmp, path).await.with_context(|| {
+                    format!(
+                        "Failed to write the default author to `{}`",
+                        path.to_string_lossy()
+                    )
+                })?;
             }
         }
         Ok(())
